@@ -209,12 +209,15 @@ inductive Res where
 
 def lowerAscii (n : Nat) : Nat := if 65 ≤ n ∧ n ≤ 90 then n + 32 else n
 
+def eqCp (insens : Bool) (c p : Nat) : Bool :=
+  if insens then lowerAscii c == lowerAscii p else c == p
+
 /-- `match_string` / `match_insensitive` -/
 def stripPrefix (insens : Bool) : List Nat → List Char → Option (List Char)
   | [], s => some s
   | _ :: _, [] => none
   | p :: ps, c :: cs =>
-    if (if insens then lowerAscii c.toNat = lowerAscii p else c.toNat = p) then stripPrefix insens ps cs else none
+    if eqCp insens c.toNat p then stripPrefix insens ps cs else none
 
 /-- `total` is the length of the whole input (`SOI` holds when nothing has been consumed). -/
 def run (g : List Expr) (total : Nat) : Nat → Expr → List Char → Res
